@@ -24,6 +24,12 @@ for cid in ids:
                         'functions against sidecar contracts, discharged by z3/cvc5; failing obligations replayed natively')))
 na = [dict(property_id=c, reason=NOT_APPLICABLE.get(c, 'check not built yet (build in progress)')) for c in ids
       if c not in {x['property_id'] for x in checks}]
+import re as _re
+_kf = json.load(open(os.path.join(ROOT, 'known_findings.json')))
+FIXNOTE = ('Genuine defects repaired by unguarded `fix:` commits in /repo (known_findings.json, `fixed`): ' +
+           ', '.join(_re.findall(r'property=(C\d+) ([0-9a-f]{7})', ' '.join(_kf.get('fixed', []))) and
+                     [f'{c} {h}' for c, h in _re.findall(r'property=(C\d+) ([0-9a-f]{7})', ' '.join(_kf.get('fixed', [])))]) +
+           '; open findings printed as KNOWN-FINDING: ' + ', '.join(f['id'] for f in _kf.get('findings', []) if f.get('status') == 'open') + '.')
 m = dict(version=1,
          setup_cmd='./check selftest --fast',
          hooks=dict(guard='ECAGENT_VERIF', enable='none needed: contracts are sidecar files; /repo carries no instrumentation',
@@ -34,7 +40,7 @@ m = dict(version=1,
                        'source -> symbolic execution against sidecar contracts -> named SMT obligations (z3 5.1, cvc5, z3 4.8); '
                        'native replay / run-time contract monitoring under /venv/bin/python')],
          checks=checks,
-         notes='See DESIGN.md. Exit codes: 0 held (a DEGRADED line means: a function left the subset the engine reads, nothing proved about it on that run, run-time contract monitoring on small-scope histories stood in, evidence level other), 1 VIOLATION, 2 undecided, 3 checker error.',
+         notes=FIXNOTE + ' See DESIGN.md. Exit codes: 0 held (a DEGRADED line means: a function left the subset the engine reads, nothing proved about it on that run, run-time contract monitoring on small-scope histories stood in, evidence level other), 1 VIOLATION, 2 undecided, 3 checker error.',
          not_applicable=na)
 json.dump(m, open(os.path.join(ROOT, 'MANIFEST.json'), 'w'), indent=1)
 print('checks:', [c['property_id'] for c in checks], 'n/a:', [x['property_id'] for x in na])
